@@ -192,7 +192,7 @@ func LoadFindings() ([]Finding, error) {
 // Deadline returns the internal soft deadline for this run: checks poll it and
 // stop *exploring* (exit 0, exhaustive:false) — it is never an oracle.
 func (r *Run) Deadline() time.Time {
-	d := 150 * time.Second
+	d := 480 * time.Second
 	if r.Thorough() {
 		d = 40 * time.Minute
 	}
